@@ -13,6 +13,8 @@ import (
 type InactivityScores []Uint64View
 
 func (a *InactivityScores) Deserialize(spec *common.Spec, dr *codec.DecodingReader) error {
+	// decode into a recycled object: drop what it holds (dr.List appends)
+	*a = (*a)[:0]
 	return dr.List(func() codec.Deserializable {
 		i := len(*a)
 		*a = append(*a, Uint64View(0))
